@@ -30,4 +30,7 @@ def untranslated : List String := []
 /-- names of the translated definitions -/
 def translated : List String := ["pow10(n)", "LossLessSwap(input,ratio,inputScale,outputScale)"]
 
+/-- every rejecting guard of the translated functions, in source order -/
+def guards : List String := []
+
 end Irismod.Gen.PureToken
